@@ -489,32 +489,26 @@ Proof.
   intros Hss. apply strict_sorted_unique; auto. now apply filter_strict_sorted.
 Qed.
 
-(* which sites the filter covers *)
-Lemma covered_refs : forall u s, 0 < u_hdr u -> site_covered s = true ->
-  incl (conv_refs u s) (filter_refs u s).
+(* the filter records every reference the converter resolves, whatever the carrier *)
+Lemma filter_refs_complete : forall u s, incl (conv_refs u s) (filter_refs u s).
 Proof.
-  intros u [car v] Hh Hc. unfold conv_refs, filter_refs, site_covered in *. cbn [s_car s_val] in *.
-  destruct car as [| |nest op|k nest op]; try apply incl_refl.
-  - destruct nest; [|destruct op; discriminate].
-    destruct op; cbn [op_covered] in Hc; try discriminate; cbn [conv_op_refs filter_op_refs];
-      try apply incl_refl; destruct (v =? 0); try apply incl_refl; apply incl_nil_l.
-  - destruct k; try discriminate.
-    destruct nest; [|destruct op; discriminate].
-    destruct op; cbn [op_covered] in Hc; try discriminate; cbn [conv_op_refs filter_op_refs];
-      try apply incl_refl; destruct (v =? 0); try apply incl_refl; apply incl_nil_l.
+  intros u [car v]. unfold conv_refs, filter_refs. cbn [s_car s_val].
+  assert (Hop : forall op, incl (conv_op_refs u op v) (filter_op_refs u op v)).
+  { intros op. destruct op; cbn [filter_op_refs conv_op_refs]; try apply incl_refl;
+      destruct (v =? 0); try apply incl_refl; apply incl_nil_l. }
+  destruct car as [| |nest op|k nest op]; try apply incl_refl; apply Hop.
 Qed.
 
+(* and nothing else, as soon as the unit header is not empty *)
 Lemma filter_refs_sound : forall u s, 0 < u_hdr u -> incl (filter_refs u s) (conv_refs u s).
 Proof.
   intros u [car v] Hh. unfold conv_refs, filter_refs. cbn [s_car s_val].
   assert (Hz : unit_target u 0 = []).
   { unfold unit_target, in_bounds. assert (H : (0 <? u_hdr u) = true) by (apply N.ltb_lt; lia). now rewrite H. }
-  assert (Hop : forall nest op, incl (filter_op_refs u nest op v) (conv_op_refs u op v)).
-  { intros nest op. destruct nest; [|apply incl_nil_l].
-    destruct op; cbn [filter_op_refs conv_op_refs]; try apply incl_refl; try apply incl_nil_l;
+  assert (Hop : forall op, incl (filter_op_refs u op v) (conv_op_refs u op v)).
+  { intros op. destruct op; cbn [filter_op_refs conv_op_refs]; try apply incl_refl;
       destruct (v =? 0) eqn:E; try apply incl_refl; apply N.eqb_eq in E; subst; rewrite Hz; apply incl_nil_l. }
-  destruct car as [| |nest op|k nest op]; try apply incl_refl; auto.
-  destruct k; auto; apply incl_nil_l.
+  destruct car as [| |nest op|k nest op]; try apply incl_refl; apply Hop.
 Qed.
 
 (* two views of the references that agree on every site of the forest reserve the same DIEs *)
@@ -563,10 +557,8 @@ Proof.
   exists S, ids. auto.
 Qed.
 
-Lemma no_dangling_covered : forall (dbg : bool) (req : N -> bool) (units : list unitd),
+Lemma no_dangling_full : forall (dbg : bool) (req : N -> bool) (units : list unitd),
   wf_offsets units -> wf_layout units ->
-  (forall u, In u units -> 0 < u_hdr u) ->
-  (forall u e par s, occurs units u e par -> In s (e_sites e) -> site_covered s = true) ->
   (exists out0, convert_all units = Ok out0) ->
   exists S out,
     reserved filter_refs dbg req units = Ok S /\
@@ -574,21 +566,19 @@ Lemma no_dangling_covered : forall (dbg : bool) (req : N -> bool) (units : list 
     (forall x, In x (map fst out) <-> In x S) /\
     (strict_sorted (section_offsets units) -> map fst out = S).
 Proof.
-  intros dbg req units Hwf Hlay Hhdr Hcov Hall.
-  apply filtered_conversion_ok; auto.
-  intros u e par s Hocc Hs. apply covered_refs; [apply Hhdr; exact (proj1 Hocc)|eauto].
+  intros dbg req units Hwf Hlay Hall. apply filtered_conversion_ok; auto.
+  intros u e par s _ _. apply filter_refs_complete.
 Qed.
 
-Lemma covered_policy_eq : forall (dbg : bool) (req : N -> bool) (units : list unitd),
+Lemma policy_eq : forall (dbg : bool) (req : N -> bool) (units : list unitd),
   wf_offsets units ->
   (forall u, In u units -> 0 < u_hdr u) ->
-  (forall u e par s, occurs units u e par -> In s (e_sites e) -> site_covered s = true) ->
   convert_filtered filter_refs dbg req units = convert_filtered conv_refs dbg req units.
 Proof.
-  intros dbg req units Hwf Hhdr Hcov. apply convert_filtered_policy_eq; auto.
+  intros dbg req units Hwf Hhdr. apply convert_filtered_policy_eq; auto.
   intros u e par s y Hocc Hs. split; intro Hy.
   - eapply filter_refs_sound; eauto. apply Hhdr. exact (proj1 Hocc).
-  - eapply covered_refs; eauto. apply Hhdr. exact (proj1 Hocc).
+  - eapply filter_refs_complete; eauto.
 Qed.
 
 (* a filter that records every reference the converter resolves never loses a needed DIE *)
